@@ -136,21 +136,40 @@ PROPS = {
         "lean": "Props.C20",
         "domains": [{"name": "remote", "timeout": 3000}],
         "cli": True,
-        "trusted": ["the harness's loopback HTTP server, pseudo-terminal and cache-file normalisation (harness/remote.go); "
+        "trusted": ["the harness's loopback HTTP server (per-URL behaviour), pseudo-terminal (typed-ahead answer; for chains a responder that "
+                    "answers each prompt by the URL it names) and cache-file normalisation (harness/remote.go); "
                     "SHA-256 collision resistance turns 'approved checksum' into 'approved content' (sha is uninterpreted in the model); "
+                    "net/http fails a request at once when its context's deadline has passed (Chain.net2: observed on every chain case "
+                    "in which node 1 stalls, not derived); "
                     "the TLS handshake, redirects and git nodes are not exercised"],
-        "assumptions": ["one remote Taskfile per invocation (root entrypoint or a single include), http(s) nodes only",
+        "assumptions": ["per invocation a chain of at most two remote Taskfiles: node 1 (root entrypoint or the single remote include of a local root) "
+                        "and, if node 1's content includes one remote Taskfile, that one (node 2, whose own content includes nothing remote); "
+                        "http(s) nodes only; sibling remote includes (read concurrently) and deeper chains are not modelled",
+                        "shared deadline: only a fetch that stalls past --timeout uses up the invocation's time budget; cache reads, refused "
+                        "connections, HTTP errors, downloads and (typed-ahead / immediately answered) prompts take no time, and a 'patient' "
+                        "--timeout (10s) exceeds the summed delays of the slow servers of one invocation",
                         "no crash between the three cache writes, cache files changed by Task only (plus ageing of timestamps by the harness)",
                         "the wall clock is monotone and an invocation takes less than the 1h expiry used"],
         "level_text": "Theorems (all histories of invocations x server states x answers, any checksum function): content is handed on for "
                       "execution only with the approved checksum; the approved checksum changes only under --yes or an accepted prompt in "
                       "the same invocation; unapproved new/changed content = 104, nothing run, cache untouched; http without --insecure = 105 "
                       "before any cache or network access; --offline and any failed fetch (refused, HTTP error, timeout) run the approved "
-                      "cached copy (repaired rule, fix F16; the rule as written is shown not to). Tie: regenerated control skeletons of "
-                      "readRemoteNodeContent and 11 neighbouring functions must equal the ones the model mirrors; the real binary is run "
-                      "against a loopback server over generated sequences and must equal Remote.invoke step by step (exit code, version run, "
-                      "cache files), with a direct trust monitor.",
-        "level_note": "Trusted: Lean kernel; harness server/pty/normalisation; extractor. Not modelled: git nodes, TLS, redirects, crash between cache writes.",
+                      "cached copy (repaired rule, fix F16; the rule as written is shown not to). The same lifted to CHAINS (Remote.Chain: "
+                      "remote A includes remote B, each with its own cache entry, trust state, server behaviour and prompt answer, both read "
+                      "by the per-node readRemote under the ONE --timeout deadline of the invocation; any `inc`, any `sha`, all chain "
+                      "histories): C20_chain_trust (content of either node runs only with the checksum approved for its URL; cache files of "
+                      "either node are written only after trust - chain_write_spec; unapproved content of node 2 = 104 and node 1's content "
+                      "does not run either), C20_chain_offline / _offline_no_network (outcome independent of both servers and answers), "
+                      "C20_chain_available / _available_node2 / _deadline (a node with a cached copy yields it whenever its fetch fails for "
+                      "any network reason, INCLUDING a shared deadline already used up by node 1's stalled fetch - whatever node 2's server "
+                      "would have done), C20_chain_extends (no include = the single-node model). Tie: regenerated control skeletons of "
+                      "readRemoteNodeContent and 11 neighbouring functions must equal the ones the model mirrors, plus cacheBeforeCtx (the "
+                      "cache is read and returned before ctx is first looked at), ctxFlow (the context given to Reader.Read is handed down "
+                      "unchanged to every node read) and ctxMakers (the only deadline is made in readTaskfile); the real binary is run "
+                      "against a loopback server over generated sequences and must equal Remote.invoke / Chain.invokeChain step by step "
+                      "(exit code, versions of A and B run, cache files of every URL), with a direct trust monitor for both nodes.",
+        "level_note": "Trusted: Lean kernel; harness server/pty/normalisation; extractor. Not modelled: git nodes, TLS, redirects, crash between cache writes, "
+                      "sibling remote includes and chains deeper than two, time spent at a prompt counting against --timeout.",
     },
     "C19": {
         "lean": "Props.C19",
